@@ -77,7 +77,20 @@ def check_points(ctx, case) -> None:
               {"before": keep.reshape(-1).tolist()[:6], "after": np.asarray(arr).reshape(-1).tolist()[:6]})
     ctx.check(isinstance(got, np.ndarray) and got.shape == arr.shape, "shape", case,
               {"got_shape": list(np.shape(got)), "want": list(arr.shape)})
-    flat = np.asarray(got, dtype=float).reshape(-1)
+    flat = np.asarray(got, dtype=float).reshape(-1).copy()
+    # results are fresh values: a caller that edits the returned array in place must not change what the next call
+    # returns (for arrays and for 0-d results alike)
+    if isinstance(got, np.ndarray) and got.flags.writeable:
+        got[...] = -7.0
+        again = np.asarray(h.hedge(arr), dtype=float).reshape(-1)
+        ctx.check(bool(np.array_equal(again, flat, equal_nan=True)), "result-aliased-between-calls", case,
+                  {"first": flat.tolist()[:6], "after_caller_edit": again.tolist()[:6]})
+        s0 = h.hedge(float(xs[0]))
+        if isinstance(s0, np.ndarray) and s0.flags.writeable:
+            keep0 = float(s0)
+            s0[...] = -7.0
+            ctx.check(float(h.hedge(float(xs[0]))) == keep0 or math.isnan(keep0), "result-aliased-between-calls", case,
+                      {"first": keep0, "after_caller_edit": float(h.hedge(float(xs[0])))})
     for i, x in enumerate(xs):
         y = float(flat[i])
         sub = {"hedge": name, "xs": [x], "shape": None, "exact": exact}
